@@ -1,6 +1,9 @@
 From Coq Require Import extraction.Extraction extraction.ExtrOcamlBasic.
-From TU Require Import Base C18_Model.
-Definition run := run_C18.
-Definition check := check_C18.
-Definition agree (inp m i : val) : bool := val_eqb m i.
+From TU Require Import Base C18_Model C18_Lower.
+(* ignore_case: the model lower-cases the raw words itself (UCD_Model.to_lowercase); the lower-cased
+   words sent by the harness (str::to_lowercase of the running std) must equal the model's — part of
+   [agree], not of [check] *)
+Definition run := run_C18u.
+Definition check := check_C18u.
+Definition agree (inp m i : val) : bool := agree_C18u inp m i.
 Extraction "model.ml" run check agree.
